@@ -121,6 +121,20 @@ def header_rules(prog, chk, pid):
     if ok3:
         a = [x for x in calls[0].d["args"] if unsnap(x).op != "class"]
         ok3 = len(a) == 1 and unsnap(a[0]).op == "param" and not calls[0].d["kwargs"]
+    # ... and leave it only as the library's canonical encoding (named curve, uncompressed): the fixed 27-byte header is valid for nothing else
+    f4 = prog.method(pc.qualname, "to_der_fmt")
+    ex4 = Exec(prog, policy=lambda e, f, d: False)
+    r4 = ex4.run(f4)
+    mc4 = meth_call(unsnap(r4.ret)) if r4.ret is not None else None
+    ok4 = mc4 is not None and mc4[1] == "to_der" and not mc4[2] and not mc4[3] and unsnap(mc4[0]).op == "attr" and unsnap(mc4[0]).args[1] == "public_key"
+    rets4 = [e for e in r4.events if e.kind == "return" and e.stack == (f4.qualname,)]
+    ok4 = ok4 and len(rets4) == 1
+    ftd = prog.method(KEYS + ".VerifyingKey", "to_der")
+    a_ = ftd.node.args
+    dv_ = dict(zip([x.arg for x in a_.args][len(a_.args) - len(a_.defaults):], a_.defaults))
+    ok4 = ok4 and "point_encoding" in dv_ and prog.try_fold(ftd.module, dv_["point_encoding"]) == "uncompressed" and ("curve_parameters_encoding" not in dv_ or prog.try_fold(ftd.module, dv_["curve_parameters_encoding"]) is None)
+    chk.require(ok4, P("plugin-emits-canonical-der"), f4.qualname, "return self.public_key.to_der()  (default: named curve, uncompressed point)", "%s:%d" % (f4.file, f4.lineno),
+                "DER output is always re-encoded by the library with its defaults, whatever encoding the key was loaded from", "to_der_fmt does not return self.public_key.to_der() with default arguments on every path (a cached or differently encoded DER breaks the fixed-header raw conversion)")
     chk.require(ok3, P("plugin-loads-through-from_der"), f3.qualname, "VerifyingKey.from_der(der_fmt)  (default validation)", "%s:%d" % (f3.file, f3.lineno), "public keys enter the library through the validating DER loader with default arguments", "public keys are not loaded by VerifyingKey.from_der(der_fmt) with default validation")
 
 
@@ -234,6 +248,74 @@ def validation_chain_rules(prog, chk, pid):
         chk.require(okq, P("validation-switch-off-sites"), q, ast.unparse(n)[:70], "%s:%d" % (m.relpath, n.lineno), "the only site that skips point validation builds the public point itself as a multiple of the generator", "point validation is switched off at a site that handles external data")
     if not offenders:
         chk.ok(P("validation-switch-off-sites"), "whole program", "no call binds validate_point/verify to False", "", "validation cannot be bypassed")
+
+
+def decoded_coordinates_rules(prog, chk, pid):
+    """the integers that reach the range / on-curve guards are the DECODED coordinates: nothing may reduce or otherwise rewrite them
+    between the byte string and Public_key.__init__ (a reduction mod p would turn x + p into an accepted x)"""
+    P = lambda s: "%s.%s" % (pid, s)
+    ECQ = "register_crypto_plugin.ecdsa.ellipticcurve"
+
+    def run(q):
+        fi = prog.func(ECQ + "." + q)
+        ex = Exec(prog, policy=lambda e, f, d: False)
+        return fi, ex, ex.run(fi)
+
+    # raw decoding: exactly string_to_number of the two halves
+    fi, ex, res = run("AbstractPoint._from_raw_encoding")
+    v = unsnap(res.ret) if res.ret is not None else None
+    ok = v is not None and v.op == "tuple" and len(v.args[0]) == 2
+    if ok:
+        for i, c in enumerate(v.args[0]):
+            c = unsnap(c)
+            good = c.op == "call" and isinstance(c.args[0], Term) and c.args[0].op == "func" and c.args[0].args[0].endswith("string_to_number") and len(c.args[1]) == 1
+            if good:
+                a = unsnap(c.args[1][0])
+                good = a.op == "slice" and unsnap(a.args[0]).op == "param" and unsnap(a.args[0]).args[0] == fi.params[0]
+                lo, hi = unsnap(a.args[1]), unsnap(a.args[2])
+                half = "raw_encoding_length // 2"
+                good = good and ((i == 0 and lo is NONE and half in show(hi, 4)) or (i == 1 and hi is NONE and half in show(lo, 4)))
+            ok = ok and good
+    chk.require(ok, P("decode-raw-unmodified"), fi.qualname, "return string_to_number(data[:L//2]), string_to_number(data[L//2:])", "%s:%d" % (fi.file, fi.lineno),
+                "the decoded coordinates are the big-endian integers of the two halves, not reduced or rewritten", "raw decoding does not return the plain integers of the two halves (%s)" % (show(v, 6)[:120] if v is not None else None))
+    # from_bytes hands decoder results on unchanged
+    fi, ex, res = run("AbstractPoint.from_bytes")
+    v = unsnap(res.ret) if res.ret is not None else None
+
+    def leaves(t, out):
+        t = unsnap(t)
+        if t.op == "phi":
+            leaves(t.args[1], out)
+            leaves(t.args[2], out)
+        elif t.op == "tuple":
+            for x in t.args[0]:
+                leaves(x, out)
+        else:
+            out.append(t)
+        return out
+
+    ls = leaves(v, []) if v is not None else []
+    bad = []
+    for t in ls:
+        base = t
+        if t.op == "sub" and is_const(t.args[1]):
+            base = unsnap(t.args[0])
+        if not (base.op == "call" and isinstance(base.args[0], Term) and base.args[0].op == "func" and base.args[0].args[0].rsplit(".", 1)[-1] in ("_from_raw_encoding", "_from_hybrid", "_from_compressed", "_from_edwards")):
+            bad.append(show(t, 4)[:80])
+    chk.require(bool(ls) and not bad, P("decode-passes-coordinates-on"), fi.qualname, "coord_x, coord_y = <decoder>(...); return coord_x, coord_y", "%s:%d" % (fi.file, fi.lineno),
+                "from_bytes returns exactly what the encoding-specific decoder produced", "a coordinate is rewritten after decoding: %s" % bad[:2])
+    for cls in ("PointJacobi", "Point"):
+        fi, ex, res = run(cls + ".from_bytes")
+        news = [e for e in res.events if e.kind == "new" and e.d["cls"].name == cls]
+        ok = len(news) >= 1
+        for e in news:
+            a = e.d["args"]
+            for c in a[1:3]:
+                c = unsnap(c)
+                base = unsnap(c.args[0]) if c.op == "sub" else c
+                if not (c.op == "sub" and base.op == "call" and "from_bytes" in show(base.args[0], 3)):
+                    ok = False
+        chk.require(ok, P("decode-passes-coordinates-on"), fi.qualname, "%s(curve, coord_x, coord_y, ...)" % cls, "%s:%d" % (fi.file, fi.lineno), "the point object is built from the decoded coordinates unchanged", "the point is not built from the unmodified decoded coordinates")
 
 
 def _ndigits_width(order: int) -> int:
@@ -386,5 +468,6 @@ def run(prog, chk, tier):
     header_rules(prog, chk, "C09")
     validation_chain_rules(prog, chk, "C09")
     dh_secret_rules(prog, chk, "C09")
+    decoded_coordinates_rules(prog, chk, "C09")
     stackrt.guarded(chk, "C09.stack-bec2", stackbec2.bec2_file_rules, prog, chk, "C09", tier, want=("ecc-layout",))
     chk.assume("point multiplication computes d*Q on P-256 (C17 clauses); SHA-256 is hashlib's; AES as in C16")
